@@ -287,6 +287,20 @@ pub fn run(case: &Value, ctx: &Ctx) -> Outcome {
             let r = cli::sfs(ctx, &args, Some(&bytes));
             verdict(&mut out, format!("shapeop/{}/{}", shape, op.join(" ")), &r, expect, sc.clone());
         }
+        "manypops" => {
+            let n = sc["n"].as_u64().unwrap() as usize;
+            let cols: Vec<String> = (0..n).map(|i| format!("s{i}")).collect();
+            let rec = gen::Rec { contig: "chr1".into(), pos: 1, bad: false, nogt: false, gt: cols.iter().map(|c| (c.clone(), "0/1".to_string())).collect() };
+            let vcf = gen::vcf_text(&cols, &[rec], false);
+            let list = (0..n).map(|i| format!("s{i}=p{i}")).collect::<Vec<_>>().join(",");
+            let mut args: Vec<String> = vec!["create".into(), "-s".into(), list];
+            if sc["project"].as_bool().unwrap() {
+                args.extend(["-p".into(), vec!["1"; n].join(",")]);
+            }
+            let a: Vec<&str> = args.iter().map(|s| s.as_str()).collect();
+            let r = cli::sfs(ctx, &a, Some(vcf.as_bytes()));
+            verdict(&mut out, format!("manypops/{n}"), &r, expect, sc.clone());
+        }
         "threads" => {
             let (cols, recs) = small_vcf();
             let vcf = gen::vcf_text(&cols, &recs, false).into_bytes();
